@@ -107,17 +107,29 @@ Definition check_C10 (c : dcase) : nat := dcheck_with c (prop_C10_step (dcfg (dc
 Definition check_C02_dag (c : dcase) : nat := dcheck_with c prop_C02_dag_step.
 
 (* C20: dc_obs was produced with the checks on (in-process), dc_off by a child interpreter started
-   with BIGTREE_CONF_ASSERTIONS="".  As long as every operation so far is accepted with the checks
-   on, it has to be accepted with the checks off and leave identical links. *)
+   with BIGTREE_CONF_ASSERTIONS="".  As long as no operation so far is refused by the checks, every
+   operation has the same outcome (accepted / refused by a hook) and leaves identical links. *)
 Definition dlinks_eqb (a b : dlinks) : bool :=
   list_eqb (fun x y => idl_eqb (fst x) (fst y) && idl_eqb (snd x) (snd y)) a b.
 
-Fixpoint c20_same (on off : list (dlinks * nat)) : bool :=
-  match on, off with
-  | [], [] => true
-  | (l1, c1) :: on', (l2, c2) :: off' =>
-      if accepted c1 then accepted c2 && dlinks_eqb l1 l2 && c20_same on' off' else true
-  | _, _ => false
+(* "valid with the checks enabled" = no operation is refused by the type/loop CHECKS.  Whether the
+   checks refuse an operation is read off the model (state s, hooks that do not raise); a failing
+   user hook or an ambiguous `del p[name]` is no check: there the two interpreters have to refuse
+   alike and leave identical links as well. *)
+Definition check_refused (s : dag) (o : dop) : bool :=
+  match snd (dstep (dcfg true) s (strip_faults o)) with
+  | Ok | Err SearchError => false
+  | Err _ => true
+  end.
+
+Fixpoint c20_same (s : dag) (ops : list dop) (on off : list (dlinks * nat)) : bool :=
+  match ops, on, off with
+  | [], [], [] => true
+  | o :: ops', (l1, c1) :: on', (l2, c2) :: off' =>
+      if check_refused s o then true else
+      Bool.eqb (accepted c1) (accepted c2) && dlinks_eqb l1 l2
+      && c20_same (fst (dstep (dcfg true) s o)) ops' on' off'
+  | _, _, _ => false
   end.
 
 (* the read-only battery (ancestors, descendants, siblings, is_root/is_leaf, attributes, go_to incl.
@@ -135,4 +147,4 @@ Definition check_C20_dag (c : dcase) : nat :=
      || unmodelled_dtrace (dcfg false) (dinit_of c) (dc_ops c) then F_SKIP else
   flag (negb (agree_dtrace (dcfg true) (dinit_of c) (dc_ops c) (dc_obs c)
               && agree_dtrace (dcfg false) (dinit_of c) (dc_ops c) (dc_off c))) F_DISAGREE
-  + flag (negb (c20_same (dc_obs c) (dc_off c) && c20_battery c)) F_PROPFAIL.
+  + flag (negb (c20_same (dinit_of c) (dc_ops c) (dc_obs c) (dc_off c) && c20_battery c)) F_PROPFAIL.
